@@ -31,7 +31,11 @@
    invariant [st_inv] ("inside the window; an Ok bit block has size*8 = nbits"), [both_sim] by
    induction on the fuel; a second, unary induction [both_tok] ("an Ok result is hereditarily Ok on
    the members Equals() visits"); [equals_sim] / [equals_true_of_tok] by induction on the fuel of
-   Equals.  Window growth (first n bytes -> whole window) is Stable.both_stable with extra = []. *)
+   Equals.  Window growth (first n bytes -> whole window) is Stable.both_stable with extra = []; it gives
+   the typed order [flet] (nested structures may be parameterised).  [tok_struct] records that a
+   parameter slot of an Ok view is initialised (wf_stable: a structure with Param fields has 0 < nparams),
+   which is all [equals_true_of_tok] needs where [flet] is weaker than the strict order.
+   copy_then_equals_param_*  non-vacuity on Stable.m_par (parameterised nested structure). *)
 From Coq Require Import ZArith List Bool Lia ZifyBool.
 Import ListNotations.
 Require Import EmbossV.Bounds.Model EmbossV.View.Model EmbossV.View.Proofs
@@ -603,7 +607,9 @@ Section Tok.
                   | Param _ => fr_ok r = true
                   | _ => True
                   end
-              | Some false => True
+              | Some false =>
+                  (* a parameter slot that is not initialised: only in a definition without parameters *)
+                  match fbody_of fd with Param _ => (0 <? nparams d)%nat = false | _ => True end
               | None => False
               end
           | _, _ => False
@@ -660,28 +666,29 @@ Section Tok.
       apply in_map_iff in Hx. destruct Hx as (i & <- & _). apply IHt. exact Hok.
   Qed.
 
-  Definition typed_env (f : nat) (d : sdef) (e : env) : Prop :=
+  Definition typed_env (f : nat) (d : sdef) (pinit : bool) (e : env) : Prop :=
     forall j r, nth_error e j = Some (Some r) ->
       exists fd, nth_error d.(fields) j = Some fd /\
         match fbody_of fd with
         | Phys _ _ ty _ => fr_ok r = true -> tok_type f ty r
+        | Param _ => fr_has r = Some pinit
         | _ => True
         end.
 
   Lemma step_typed f d ps pinit st e i :
-    type_tok f -> typed_env f d e -> typed_env f d (vstep m mem f d ps pinit st e i).
+    type_tok f -> typed_env f d pinit e -> typed_env f d pinit (vstep m mem f d ps pinit st e i).
   Proof.
     intros IH Hinv. unfold vstep.
     destruct (nth_error (fields d) i) as [fld|] eqn:Ef; [|exact Hinv].
     intros j r Hj. apply nth_error_set_nth_inv in Hj. destruct Hj as [[-> Hr]|Hj]; [|apply Hinv; exact Hj].
     exists fld. split; [exact Ef|]. inversion Hr; subst r; clear Hr.
-    destruct (fbody_of fld) as [start size ty rq | rd rq | p aty | pi]; try exact I.
+    destruct (fbody_of fld) as [start size ty rq | rd rq | p aty | pi]; try exact I; [|reflexivity].
     destruct (locate st e (m_bool (meval e None (fcond fld))) (forallb known (map (meval e None) (args_of ty))) start size);
       intros Hok; rewrite ok_with_has in Hok; apply tok_with_has; apply IH; exact Hok.
   Qed.
 
   Lemma fold_typed f d ps pinit st : type_tok f ->
-    forall ord e, typed_env f d e -> typed_env f d (fold_left (vstep m mem f d ps pinit st) ord e).
+    forall ord e, typed_env f d pinit e -> typed_env f d pinit (fold_left (vstep m mem f d ps pinit st) ord e).
   Proof.
     intros IH. induction ord as [|i t IHo]; intros e He; [exact He|].
     cbn [fold_left]. apply IHo. apply step_typed; assumption.
@@ -691,16 +698,19 @@ Section Tok.
   Proof.
     intros IH d ps pinit st. rewrite eval_struct_S.
     set (e := fold_left (vstep m mem f d ps pinit st) (order d) (map (fun _ => None) (fields d))).
-    assert (Hinv : typed_env f d e).
+    assert (Hinv : typed_env f d pinit e).
     { apply fold_typed; [exact IH|]. intros j r Hj. exfalso. eapply nth_error_all_none; exact Hj. }
     clearbody e. unfold finish. cbn [fr_sok fr_sub]. intros H.
-    apply andb_prop in H. destruct H as [H _]. apply andb_prop in H. destruct H as [_ Hft].
+    apply andb_prop in H. destruct H as [H _]. apply andb_prop in H. destruct H as [Hpin Hft].
+    apply andb_prop in Hpin. destruct Hpin as [_ Hpin].
     rewrite forallb_forall in Hft.
     cbn [tok_struct]. intros i Hi. specialize (Hft i Hi). unfold field_test in Hft.
     destruct (nth_error e i) as [[r|]|] eqn:Er; try discriminate.
     destruct (Hinv i r Er) as (fd & -> & Hty).
-    destruct (fr_has r) as [[|]|]; [|exact I|discriminate].
-    destruct (fbody_of fd); auto.
+    destruct (fr_has r) as [[|]|] eqn:Eh; [| |discriminate].
+    - destruct (fbody_of fd); auto.
+    - destruct (fbody_of fd); try exact I.
+      inversion Hty; subst pinit. destruct (0 <? nparams d)%nat; [discriminate|reflexivity].
   Qed.
 
   Lemma both_tok f : struct_tok f /\ type_tok f.
@@ -826,16 +836,16 @@ Qed.
 Lemma window_grow m : wf_stable m = true ->
   forall mem fuel d ps pinit o k k',
     wf_sdef m d = true -> 0 <= k <= k' -> (k = 0 \/ (0 <= o /\ o + k <= Z.of_nat (length mem))) ->
-    fle (eval_struct m mem fuel d ps pinit (SB (Some (o, k))))
-        (eval_struct m mem fuel d ps pinit (SB (Some (o, k')))).
+    flet m false (Some d) (eval_struct m mem fuel d ps pinit (SB (Some (o, k))))
+         (eval_struct m mem fuel d ps pinit (SB (Some (o, k')))).
 Proof.
   intros Hwf mem fuel d ps pinit o k k' Hd Hk Hin.
   destruct (both_stable m Hwf mem [] fuel) as [Hs _].
-  pose proof (Hs d ps ps pinit pinit (SB (Some (o, k))) (SB (Some (o, k'))) Hd) as H.
+  pose proof (Hs d ps ps pinit pinit (SB (Some (o, k))) (SB (Some (o, k'))) false Hd) as H.
   rewrite app_nil_r in H. apply H.
   - right. exists k'. split; [reflexivity|]. split; [lia|]. cbn. split; [lia|exact Hin].
   - intros Hp. split; [exact Hp|auto].
-  - left. reflexivity.
+  - reflexivity.
 Qed.
 
 (* the class without Float fields: a Float field holding a NaN does not read equal to itself, so the
@@ -855,14 +865,17 @@ Section EqualsTrue.
   Hypothesis Hwf : wf_stable m = true.
   Hypothesis Hnf : float_free m = true.
 
-  (* c is a typed Ok tree; a is above a translate of c, b is above c: then a.Equals(b) *)
+  (* c is a typed Ok tree; a is above a translate of c, b is above c (typed order): then a.Equals(b) *)
   Lemma equals_true_of_tok : forall f,
     (forall ty c c' a b dl,
        (forall el es, ty <> FArray el es) -> ty_float_free ty = true ->
-       tok_type m f ty c -> fsim dl c c' -> fle c' a -> fle c b -> equals_type m f ty a b = true) /\
-    (forall d ec ec' ea eb dl,
+       tok_type m f ty c -> fsim dl c c' ->
+       flet m true (sub_of_ty m ty) c' a -> flet m true (sub_of_ty m ty) c b ->
+       equals_type m f ty a b = true) /\
+    (forall d ec ec' ea eb dl w1 w2,
        wf_sdef m d = true -> float_free_sdef d = true ->
-       tok_struct m f d ec -> env_sim dl ec ec' -> env_rel ec' ea -> env_rel ec eb ->
+       tok_struct m f d ec -> env_sim dl ec ec' ->
+       env_relt m w1 (fields d) ec' ea -> env_relt m w2 (fields d) ec eb ->
        equals_struct m f d ea eb = true).
   Proof.
     induction f as [|f [IHt IHs]]; [split; intros; contradiction|]. split.
@@ -870,40 +883,46 @@ Section EqualsTrue.
       cbn [tok_type] in T. destruct T as [Oc T].
       pose proof S as Sb. rewrite fsim_eq in Sb. destruct Sb as (_ & Oc' & Vc' & _ & _ & _ & _ & Us & _).
       rewrite Oc in Oc'. specialize (Vc' Oc).
-      destruct (fle_ok _ _ Fa Oc') as [_ Va]. destruct (fle_ok _ _ Fb Oc) as [_ Vb].
+      destruct (flet_ok _ _ _ _ _ Fa Oc') as [_ Va]. destruct (flet_ok _ _ _ _ _ Fb Oc) as [_ Vb].
       cbn [equals_type]. destruct ty as [k kb bo|tid args ad|el es].
       + rewrite scalar_equal_not_float by (intros ->; discriminate).
         rewrite Va, Vb, Vc'. apply opt_value_eqb_refl.
-      + destruct (nth_error m tid) as [d|] eqn:Ed; [|contradiction].
-        rewrite fle_eq in Fa, Fb.
+      + cbn [sub_of_ty] in Fa, Fb.
+        destruct (nth_error m tid) as [d|] eqn:Ed; [|contradiction].
+        rewrite flet_eq in Fa, Fb.
         destruct Fa as (_ & _ & _ & _ & _ & Fa & _). destruct Fb as (_ & _ & _ & _ & _ & Fb & _).
-        apply (IHs d (fr_sub c) (fr_sub c') (fr_sub a) (fr_sub b) dl); try assumption.
+        cbn [odfields] in Fa, Fb.
+        apply (IHs d (fr_sub c) (fr_sub c') (fr_sub a) (fr_sub b) dl true true); try assumption.
         eapply wf_sdef_of; eassumption.
         unfold float_free in Hnf. rewrite forallb_forall in Hnf. apply Hnf. eapply nth_error_In; eassumption.
       + exfalso. eapply Hna; reflexivity.
-    - intros d ec ec' ea eb dl Hd Hfd T S Fa Fb.
+    - intros d ec ec' ea eb dl w1 w2 Hd Hfd T S Fa Fb.
       cbn [tok_struct] in T. cbn [equals_struct]. apply forallb_forall. intros i Hi.
       specialize (T i Hi).
       destruct (nth_error (fields d) i) as [fd|] eqn:Ef; [|contradiction].
       destruct (nth_error ec i) as [[rc|]|] eqn:Ec; try contradiction.
       destruct (olist_sim_some _ _ _ _ _ S Ec) as (rc' & Ec' & Sc).
-      destruct (olist_le_nth _ _ _ _ _ Fa Ec') as (ra & -> & Fra).
-      destruct (olist_le_nth _ _ _ _ _ Fb Ec) as (rb & -> & Frb).
+      destruct (tlist_le_nth _ _ _ _ _ _ _ _ Fa Ec') as (ra & -> & Fra).
+      destruct (tlist_le_nth _ _ _ _ _ _ _ _ Fb Ec) as (rb & -> & Frb).
+      rewrite Ef in Fra, Frb.
+      pose proof (wf_field_of m d fd Hd (nth_error_In _ _ Ef)) as Hwfd. unfold wf_field in Hwfd.
       pose proof Sc as Sb. rewrite fsim_eq in Sb. destruct Sb as (Hc' & Oc' & Vc' & _).
       destruct (fr_has rc) as [[|]|] eqn:Hh; try contradiction.
-      + rewrite (fle_has _ _ _ Fra Hc'), (fle_has _ _ _ Frb Hh).
+      + rewrite (krel_has_true _ _ _ _ _ Fra Hc'), (krel_has_true _ _ _ _ _ Frb Hh).
+        unfold krel in Fra, Frb.
         destruct (fbody_of fd) as [start size ty rq | rd rq | p aty | pi] eqn:Eb; try reflexivity.
         * cbn [member_test Bool.eqb andb]. apply (IHt ty rc rc' ra rb dl); try assumption.
           2:{ unfold float_free_sdef in Hfd. rewrite forallb_forall in Hfd.
               specialize (Hfd fd (nth_error_In _ _ Ef)). rewrite Eb in Hfd. exact Hfd. }
-          intros el es ->. unfold wf_sdef in Hd. rewrite forallb_forall in Hd.
-          specialize (Hd fd (nth_error_In _ _ Ef)). unfold wf_field in Hd. rewrite Eb in Hd.
-          cbn in Hd. discriminate.
+          intros el es ->. cbn in Hwfd. discriminate.
         * cbn [member_test Bool.eqb andb]. rewrite T in Oc'. specialize (Vc' T).
-          destruct (fle_ok _ _ Fra Oc') as [_ Va]. destruct (fle_ok _ _ Frb T) as [_ Vb].
+          destruct (fle0_ok _ _ (ple_fle0 _ _ _ Fra) Oc') as [_ Va].
+          destruct (fle0_ok _ _ (ple_fle0 _ _ _ Frb) T) as [_ Vb].
           rewrite Va, Vb, Vc'. apply opt_value_eqb_refl.
-      + rewrite (fle_has _ _ _ Fra Hc'), (fle_has _ _ _ Frb Hh).
-        destruct (fbody_of fd); reflexivity.
+      + destruct (is_param fd) eqn:Ep.
+        * exfalso. unfold is_param in Ep. destruct (fbody_of fd); try discriminate. congruence.
+        * rewrite (krel_has _ _ (Some fd) _ _ Ep Fra _ Hc'), (krel_has _ _ (Some fd) _ _ Ep Frb _ Hh).
+          destruct (fbody_of fd); reflexivity.
   Qed.
 End EqualsTrue.
 
@@ -988,26 +1007,26 @@ Section Copy.
       apply memmove_window; lia. }
     pose proof S as Sb. rewrite fsim_eq in Sb. destruct Sb as (_ & _ & _ & _ & Sok & _ & Ssz & Ssub & _).
     (* window growth *)
-    assert (G1 : fle src_n src) by (apply (window_grow m Hwf); [exact Hwd|lia|right; lia]).
-    assert (G2 : fle dst_n dst') by (apply (window_grow m Hwf); [exact Hwd|lia|right; lia]).
+    assert (G1 : flet m false (Some d) src_n src) by (apply (window_grow m Hwf); [exact Hwd|lia|right; lia]).
+    assert (G2 : flet m false (Some d) dst_n dst') by (apply (window_grow m Hwf); [exact Hwd|lia|right; lia]).
     assert (Hszn : fr_ssize src_n = Some n).
     { destruct (complete_size m mem fuel d ps pinit _ (structure_ok_complete _ _ _ _ _ _ _ Hself)) as (z & Ez & _).
-      fold src_n in Ez. pose proof (fle_ssize _ _ _ G1 Ez) as E2. rewrite Hsz in E2. congruence. }
+      fold src_n in Ez. pose proof (flet_ssize _ _ _ _ _ _ G1 Ez) as E2. rewrite Hsz in E2. congruence. }
     assert (Hokd : fr_sok dst' = true).
-    { rewrite fle_eq in G2. destruct G2 as (_ & _ & G2 & _). apply G2. rewrite Sok. exact Hself. }
+    { rewrite flet_eq in G2. destruct G2 as (_ & _ & G2 & _). apply G2. rewrite Sok. exact Hself. }
     assert (Heq : float_free m = true -> equals_struct m fuel d (fr_sub dst') (fr_sub src) = true).
     { intros Hnf.
       assert (Hfd : float_free_sdef d = true)
         by (unfold float_free in Hnf; rewrite forallb_forall in Hnf; apply Hnf; exact Hd).
-      apply (proj2 (equals_true_of_tok m Hwf Hnf fuel) d (fr_sub src_n) (fr_sub dst_n) (fr_sub dst') (fr_sub src) (o1 - o2)).
+      apply (proj2 (equals_true_of_tok m Hwf Hnf fuel) d (fr_sub src_n) (fr_sub dst_n) (fr_sub dst') (fr_sub src) (o1 - o2) false false).
       - exact Hwd.
       - exact Hfd.
       - apply ok_view_tok. exact Hself.
       - exact Ssub.
-      - rewrite fle_eq in G2. apply G2.
-      - rewrite fle_eq in G1. apply G1. }
+      - rewrite flet_eq in G2. apply G2.
+      - rewrite flet_eq in G1. apply G1. }
     split; [exact Hokd|].
-    split; [apply (fle_ssize _ _ _ G2); rewrite Ssz; exact Hszn|].
+    split; [apply (flet_ssize _ _ _ _ _ _ G2); rewrite Ssz; exact Hszn|].
     split; [exact Heq|].
     split; [intros g; symmetry; apply (fsim_observe _ g _ _ S)|].
     intros Hov src'.
@@ -1269,6 +1288,34 @@ Example copy_then_equals_nonvacuous :
   (exists x, nth_error (fr_sub (eval_struct m_ex mem' 8 d_ex [] true (SB (Some (9, 8))))) 1 = Some (Some x) /\
              fr_has x = Some true /\ fr_ok x = true /\ fr_val x = Some (VInt 515)).
 Proof. vm_compute. repeat split; try reflexivity. eexists. repeat split; reflexivity. Qed.
+
+(* the class contains parameterised nested structures: Outer { n; Par(n) p; tail } of Stable.m_par,
+   source window (0,3) = [1; 7; 5] (p located with k = 1, a = 7, s = 8, tail = 5), destination (3,4) *)
+Definition copy_mem_par : list Z := [1; 7; 5] ++ [0; 0; 0; 0].
+Example copy_then_equals_param_instance :
+  exists mem',
+    view_try_copy copy_mem_par (Some (3, 4)) (eval_struct m_par copy_mem_par 8 d_par [] true (SB (Some (0, 3)))) = Some mem' /\
+    length mem' = length copy_mem_par /\
+    let dst' := eval_struct m_par mem' 8 d_par [] true (SB (Some (3, 4))) in
+    fr_sok dst' = true /\ fr_ssize dst' = Some 3 /\
+    equals_struct m_par 8 d_par (fr_sub dst')
+      (fr_sub (eval_struct m_par copy_mem_par 8 d_par [] true (SB (Some (0, 3))))) = true.
+Proof.
+  destruct (copy_then_equals m_par wf_stable_example_param d_par [] true 8 copy_mem_par 3 4 0 3 3)
+    as (mem' & H1 & H2 & H3 & H4 & H5 & _); try (unfold copy_mem_par; cbn [length app]; lia); try reflexivity.
+  - left. reflexivity.
+  - exists mem'. repeat (split; [assumption|]). apply H5. reflexivity.
+Qed.
+
+Example copy_then_equals_param_nonvacuous :
+  let src := eval_struct m_par copy_mem_par 8 d_par [] true (SB (Some (0, 3))) in
+  let mem' := [1; 7; 5] ++ [1; 7; 5; 0] in
+  fr_sok src = true /\ fr_ssize src = Some 3 /\
+  view_try_copy copy_mem_par (Some (3, 4)) src = Some mem' /\
+  equals_struct m_par 8 d_par (fr_sub (eval_struct m_par copy_mem_par 8 d_par [] true (SB (Some (3, 4))))) (fr_sub src) = false /\
+  equals_struct m_par 8 d_par (fr_sub (eval_struct m_par mem' 8 d_par [] true (SB (Some (3, 4))))) (fr_sub src) = true /\
+  fr_sok (eval_struct m_par mem' 8 d_par [] true (SB (Some (3, 4)))) = true.
+Proof. vm_compute. repeat split; reflexivity. Qed.
 
 (* ---------- closedness ---------- *)
 Print Assumptions eval_sim.
